@@ -550,6 +550,8 @@ register_function(lambda lo, hi: Array(list(range(lo, hi+1))),
 def ka_range(lo, hi, step):
     if not dispatch("<=", (lo, hi)):
         raise FunctionArgError(f"Lower bound of range (was {lo}) must be less than or equal to upper bound (was {hi}).")
+    if not dispatch("<", (0, step)):
+        raise FunctionArgError(f"Step of range must be positive (was {step}).")
     result = []
     curr = lo
     while dispatch("<=", (curr, hi)):
